@@ -24,6 +24,7 @@ type PropSpec struct {
 	Include  []string // other properties whose functions are included
 	Kinds    map[string]bool
 	Labels   map[string]bool // ensures/invariant labels additionally owned (safety-relevant facts of callees)
+	Refines  []string // interface-method contract keys whose refinement by implementers is checked
 	Lemmas   []string
 	Bounded  []string
 	Packages []string
@@ -64,6 +65,8 @@ func loadPropSpec(verif, id string, seen map[string]bool) (*PropSpec, error) {
 			}
 		case strings.HasPrefix(l, "include:"):
 			ps.Include = append(ps.Include, strings.Fields(strings.TrimPrefix(l, "include:"))...)
+		case strings.HasPrefix(l, "refine:"):
+			ps.Refines = append(ps.Refines, strings.Fields(strings.TrimPrefix(l, "refine:"))...)
 		case strings.HasPrefix(l, "lemma:"):
 			ps.Lemmas = append(ps.Lemmas, strings.Fields(strings.TrimPrefix(l, "lemma:"))...)
 		case strings.HasPrefix(l, "bounded:"):
@@ -83,6 +86,7 @@ func loadPropSpec(verif, id string, seen map[string]bool) (*PropSpec, error) {
 			continue // property not built yet
 		}
 		ps.Funcs = append(ps.Funcs, sub.Funcs...)
+		ps.Refines = append(ps.Refines, sub.Refines...)
 	}
 	// dedupe
 	sort.Strings(ps.Funcs)
@@ -155,6 +159,7 @@ func runCheck(repo, verif, prop, tier, keep string, claim bool) int {
 	}
 	loadSecs := time.Since(t0).Seconds()
 
+	var problemsPre []string
 	// ---- encode and discharge, in parallel over functions
 	runs := make([]*funcRun, len(ps.Funcs))
 	var wg sync.WaitGroup
@@ -195,8 +200,54 @@ func runCheck(repo, verif, prop, tier, keep string, claim bool) int {
 	}
 	wg.Wait()
 
-	// ---- lemmas
+	// ---- lemmas and interface refinements
 	lemmaResults := checkLemmas(w, ps, tier, seed)
+	var refineAssumed []string
+	{
+		seenRef := map[string]bool{}
+		var rmu sync.Mutex
+		var rwg sync.WaitGroup
+		for _, rk := range ps.Refines {
+			key := rk
+			if !strings.Contains(key, "/") {
+				key = repoModule + "/" + key
+			}
+			if seenRef[key] {
+				continue
+			}
+			seenRef[key] = true
+			targets, assumed := w.refinementTargets(key)
+			if w.CS.Funcs[key] == nil {
+				problemsPre = append(problemsPre, "no interface contract "+rk)
+			}
+			for _, a := range assumed {
+				refineAssumed = append(refineAssumed, fmt.Sprintf("interface contract %s assumed for implementer %s (method not under contract)", rk, a))
+			}
+			for _, rt := range targets {
+				rt := rt
+				rwg.Add(1)
+				go func() {
+					defer rwg.Done()
+					sem <- struct{}{}
+					defer func() { <-sem }()
+					defer func() {
+						if p := recover(); p != nil {
+							fmt.Fprintf(os.Stderr, "refinement encoder panic %s/%s: %v\n", rt.ikey, typeKey(rt.recvT), p)
+						}
+					}()
+					e := encodeRefinement(w, rt)
+					rs := checkFunction(e, tier, seed, keep)
+					rmu.Lock()
+					lemmaResults = append(lemmaResults, rs...)
+					for _, p := range e.problems {
+						problemsPre = append(problemsPre, "refine "+rt.ikey+": "+p)
+					}
+					rmu.Unlock()
+				}()
+			}
+		}
+		rwg.Wait()
+	}
 
 	// ---- collect
 	type entry struct {
@@ -205,7 +256,7 @@ func runCheck(repo, verif, prop, tier, keep string, claim bool) int {
 	}
 	all := map[string]entry{}
 	var order []string
-	var problems []string
+	problems := append([]string{}, problemsPre...)
 	backend := map[string]int{}
 	solverSecs := 0.0
 	for _, fr := range runs {
@@ -235,6 +286,9 @@ func runCheck(repo, verif, prop, tier, keep string, claim bool) int {
 		}
 	}
 	for _, r := range lemmaResults {
+		if !ps.Kinds[r.Ob.Kind] {
+			continue
+		}
 		all[r.Ob.Name] = entry{r, nil}
 		order = append(order, r.Ob.Name)
 	}
@@ -402,6 +456,9 @@ func runCheck(repo, verif, prop, tier, keep string, claim bool) int {
 				assume[kind+shortFuncName(k)] = true
 			}
 		}
+	}
+	for _, a := range refineAssumed {
+		assume[a] = true
 	}
 	var assumptions []string
 	for a := range assume {
